@@ -982,7 +982,37 @@ fn async_spawner(fut: futures::future::BoxFuture<'static, ()>) {
     });
 }
 
+/// A subscriber that enables every callsite and throws everything away: what matters is that the
+/// library's log statements evaluate their field expressions, as they do in an application that
+/// has logging switched on.
+struct SinkSubscriber;
+impl tracing::Subscriber for SinkSubscriber {
+    fn enabled(&self, _: &tracing::Metadata<'_>) -> bool {
+        true
+    }
+    fn new_span(&self, _: &tracing::span::Attributes<'_>) -> tracing::span::Id {
+        tracing::span::Id::from_u64(1)
+    }
+    fn record(&self, _: &tracing::span::Id, _: &tracing::span::Record<'_>) {}
+    fn record_follows_from(&self, _: &tracing::span::Id, _: &tracing::span::Id) {}
+    fn event(&self, e: &tracing::Event<'_>) {
+        // touch the fields the way a formatting layer would
+        struct V;
+        impl tracing::field::Visit for V {
+            fn record_debug(&mut self, _: &tracing::field::Field, v: &dyn std::fmt::Debug) {
+                let _ = format!("{:?}", v);
+            }
+        }
+        e.record(&mut V);
+    }
+    fn enter(&self, _: &tracing::span::Id) {}
+    fn exit(&self, _: &tracing::span::Id) {}
+}
+
 pub fn build(cfg: &Cfg) -> Result<Box<dyn Api>, String> {
+    if cfg.tracing_on {
+        let _ = tracing::subscriber::set_global_default(SinkSubscriber);
+    }
     let kb = HKb(cfg.keys.clone());
     let cb = match cfg.callback {
         CallbackMode::Full => HCallback::Full(HCallbackFull),
@@ -1406,13 +1436,21 @@ pub fn run_plan(plan: &Plan) {
     }
     let sh = shared.clone();
     rt::block("controller.join", &move || sh.finished.load(Ordering::SeqCst) >= n);
-    rt::quiesce();
+    if plan.has_tag("drop_busy") {
+        // no quiescence: whatever is buffered now is still buffered when the handles go
+        let snap = snap_of_q(api.as_ref(), &plan.universe, &kb, false);
+        log(EvKind::Checkpoint { id: cp, snap, quiescent: false });
+    } else {
+        rt::quiesce();
+    }
     if matches!(plan.cfg.keys, KeyMode::Typed { .. }) {
         rt::atomic(|| log_keymap(api.as_ref(), &plan.universe));
     }
-    let snap = snap_of(api.as_ref(), &plan.universe, &kb);
-    log(EvKind::Checkpoint { id: cp, snap, quiescent: true });
-    cp += 1;
+    if !plan.has_tag("drop_busy") {
+        let snap = snap_of(api.as_ref(), &plan.universe, &kb);
+        log(EvKind::Checkpoint { id: cp, snap, quiescent: true });
+        cp += 1;
+    }
 
     if plan.has_tag("settle_ttl") {
         // faults stop; every deadline still pending among the resident entries is allowed to
